@@ -742,7 +742,8 @@ def run(ctx, col: Collector):
             w = word[0]
             col.check(w.a['init'] == want and w.a['body'] == want and w.a['min'] == 1 and w.a['max'] is None, 'C01-lex', 'name:bare-charset',
                       'bare identifiers are non-empty words over letters, digits and underscore',
-                      f'bare identifier charset is {"".join(sorted(w.a["body"] ^ want))!r} off the DBML identifier alphabet (min={w.a["min"]}, max={w.a["max"]})',
+                      f'the bare identifier token differs from a non-empty word over [A-Za-z0-9_]: first position off by {"".join(sorted(w.a["init"] ^ want))[:24]!r}, later positions off by '
+                      f'{"".join(sorted(w.a["body"] ^ want))[:24]!r} (min={w.a["min"]}, max={w.a["max"]}) - names the document may declare bare are rejected or split, or text that is not a name is taken as one',
                       node=_N(w), file=w.file)
         if quoted:
             q = quoted[0]
@@ -1029,6 +1030,14 @@ def run(ctx, col: Collector):
                 n += 1
                 col.obs.append(type(o)(col.prop, o.rule.replace('C05-', 'C01-'), o.construct, o.status, o.msg, o.file, o.line, o.extra))
         col.floor('C01-enum', 'enum-type / default-schema / resolver obligations', n, 20)
+        # a composite reference pairs its columns by position: the endpoint lists keep the order written in the reference (rule shared with C04-roles)
+        sub4 = ctx.sub('c04', col.prop)
+        m = 0
+        for o in sub4.obs:
+            if o.rule == 'C04-roles' and o.construct.endswith(':written-order'):
+                m += 1
+                col.obs.append(type(o)(col.prop, 'C01-resolve', o.construct, o.status, o.msg, o.file, o.line, o.extra))
+        col.floor('C01-resolve', 'endpoint order obligations', m, 2)
     guarded(col, 'C01-enum', 'enum-types', enum_types)
 
     # ---------------------------------------------------------------- C01-sides
